@@ -193,6 +193,58 @@ def run_pair(case, follow=True):
                 recv_log=[e for e in c1.log if e[0] == "recv"], updates=[S.run_ids(u) for u in dec.updates])
 
 
+# cluster key / forger's key: equal up to some point, different after it.  A key is 16, 24 or 32 CHARACTERS whose
+# UTF-8 form is 16, 24 or 32 bytes - so it need not be ASCII
+KEY_PAIRS = [
+    ("0123456789abcdef", "0123456789abcdeX"), ("0123456789abcdef", "01234567XXXXXXXX"),
+    ("\u043f\u0430\u0440\u043e\u043b\u044c\u0443\u0437\u043b\u0430\u0431\u043e\u0431\u043e\u0446\u0435",
+     "\u043f\u0430\u0440\u043e\u043b\u044c\u0443\u0437\u0414\u0420\u0423\u0413\u041e\u0419\u041a\u041b"),
+    ("\u043a\u043b\u044e\u0447\u043a\u043b\u044e\u0447abcdefgh", "\u043a\u043b\u044e\u0447\u043a\u043b\u044e\u0447abcdefgX"),
+    ("k" * 24, "k" * 23 + "K"), ("q" * 32, "q" * 16 + "Q" * 16),
+]
+
+
+def other_key_case(pair):
+    """a message built exactly like a peer's (known URN, right id key, RESET flag, well-formed payload) but encrypted
+    with ANOTHER key must change nothing; a valid one afterwards is accepted.  -> failure text | None"""
+    from bobocep.dist.crypto.aes import BoboDistributedCryptoAES
+    good_key, bad_key = pair
+    try:
+        forger = BoboDistributedCryptoAES(bad_key)
+        dist, dec = S.make_stepped(3, me=0, aes_key=good_key, timeout_receive=TRECV, recv_bytes=65536)
+    except Exception as ex:      # noqa: the library refuses one of the keys: nothing to check
+        return None
+    for i, urn in enumerate(("dev1", "dev2")):
+        d = dist._devices[urn]
+        d.last_comms, d.last_attempt, d.flag_reset = 50 + i, 60 + i, False
+    dist.mark_running()
+    forged = S.wire_message(forger, "dev1", "key1", 0, 1, S.payload_json(updated=[S.make_run_serial(666, "forged", urn="dev1")]))
+    good = good_message(dist._crypto)
+    clock = S.FakeClock(readings=[])
+    c1 = S.ScriptedClient([forged], clock, origin=("10.6.6.6", 40000), clock_readings=[100, 100, 100, 101, 101, 102, 102, 100 + TRECV, 101 + TRECV])
+    c2 = S.ScriptedClient([good], clock, origin=(GOOD_ADDR, 40001), clock_readings=[200, 200, 200])
+    before = state_vector(dist)
+    mid = []
+    net = S.FakeNet([c1, c2], clock, on_accept=lambda i, cl: mid.append(state_vector(dist)) if i == 1 else None)
+    with S.installed(net, clock):
+        try:
+            dist.incoming_iterations(2)
+        except Exception as ex:      # noqa
+            return "%s escaped the accept loop: %s" % (type(ex).__name__, str(ex)[:80])
+    if mid and mid[0] != before:
+        return "a message encrypted with another key changed the instance's state (peer address / contact times / queue)"
+    try:
+        dist.dispatch()
+    except Exception as ex:          # noqa
+        return "dispatch raised %s" % type(ex).__name__
+    ids = [S.run_ids(u) for u in dec.updates]
+    if any("666" in repr(x) for x in ids):
+        return "a message encrypted with another key reached the decider: %s" % ids
+    if not any("777" in repr(x) for x in ids):
+        return "the valid message after the forged one was not delivered"
+    return None
+
+
 def ref_end_test(data):
     return len(data) >= 52 and data.endswith(b"BOBO")
 
@@ -489,11 +541,21 @@ def coq_case_input(case, r, fixed=True):
 
 
 # --------------------------------------------------------------------------------------------- run
+def other_key_half(res):
+    for i, pair in enumerate(KEY_PAIRS):
+        bad = other_key_case(pair)
+        res.note_case(("other-key", i), True)
+        if bad:
+            res.failures.append(dict(signature="message-under-another-key-accepted", case=dict(other_key=i, keys=list(pair)),
+                                     what="cluster key %r, forger's key %r: %s" % (pair[0], pair[1], bad), detail=None))
+
+
 def run(ctx, res):
     import logging
     logging.disable(logging.CRITICAL)
     try:
         _run(ctx, res)
+        other_key_half(res)
     finally:
         logging.disable(logging.NOTSET)
 
@@ -577,6 +639,10 @@ def replay(obj):
     if case.get("streaming"):
         import pC10
         return pC10.replay_stream(case)
+    if "other_key" in case:
+        bad = other_key_case(tuple(case["keys"]))
+        print("cluster key %r, forger's key %r:" % tuple(case["keys"]), bad or "forged message rejected without effect, valid one accepted")
+        return 1 if bad else 0
     if "bytes" not in case:
         print(obj)
         return 0
